@@ -10,7 +10,7 @@ package nodetable
 //@ ufun keyOf(p ref) int
 //@ ufun kid(h [int]int, p ref, n int) int
 //@ ufun hashOf(k int) int
-//@ axiom hashOf-range: forall k int :: 0 <= hashOf(k) && hashOf(k) < 4294967296
+//@ axiom hashOf-range: forall k int {hashOf(k)} :: 0 <= hashOf(k) && hashOf(k) < 4294967296
 //@ pure keyId(key []byte) int = kid(memheap8(), ptr(key), len(key))
 //@ pure dec(v uint64) ref = v % 9223372036854775808
 //@ pure conf(v uint64) bool = v / 9223372036854775808 == 1
@@ -59,7 +59,7 @@ package nodetable
 //@ use emptyResult-zero
 //@ requires nt != nil && nt.fastHT != nil && nt.slowHT != nil
 //@ modifies nt.res.status, nt.res.hash, nt.res.hasConflict, nt.res.fastHTHasEntry, nt.res.fastHTValue, nt.res.slowHTValues, nt.res.slowHTPos
-//@ loop 1 invariant -1 <= rangeindex && rangeindex < len(vs) && (forall j int :: 0 <= j && j <= rangeindex ==> keyOf(dec(vs[j])) != keyId(key))
+//@ loop 1 invariant -1 <= rangeindex && rangeindex < len(vs) && (forall j int {vs[j]} :: 0 <= j && j <= rangeindex ==> keyOf(dec(vs[j])) != keyId(key))
 //@ loop 1 invariant nt.res.status == 0 && nt.res.hash == hashOf(keyId(key)) && nt.res.hasConflict && nt.res.fastHTHasEntry && !inFast(nt, keyId(key))
 //@ loop 1 decreases len(vs) - rangeindex
 //@ ensures[res] result == nt.res
@@ -70,20 +70,20 @@ package nodetable
 //@ ensures[fast] result.status == 1 <==> inFast(nt, keyId(key))
 //@ ensures[fast-value] result.status == 1 ==> result.fastHTValue == nt.fastHT[hashOf(keyId(key))]
 //@ ensures[slow] result.status == 3 ==> !inFast(nt, keyId(key)) && inSlowAt(nt, keyId(key), result.slowHTPos) && result.slowHTValues == nt.slowHT[hashOf(keyId(key))]
-//@ ensures[slow-first] result.status == 3 ==> (forall j int :: 0 <= j && j < result.slowHTPos ==> !inSlowAt(nt, keyId(key), j))
-//@ ensures[absent] result.status == 0 ==> !inFast(nt, keyId(key)) && (forall j int :: !inSlowAt(nt, keyId(key), j))
+//@ ensures[slow-first] result.status == 3 ==> (forall j int {nt.slowHT[hashOf(keyId(key))][j]} :: 0 <= j && j < result.slowHTPos ==> !inSlowAt(nt, keyId(key), j))
+//@ ensures[absent] result.status == 0 ==> !inFast(nt, keyId(key)) && (forall j int {nt.slowHT[hashOf(keyId(key))][j]} :: !inSlowAt(nt, keyId(key), j))
 //@ nopanic
 
 //@ pure present(nt *NodeTable, k int) bool = inFast(nt, k) || (exists i int :: inSlowAt(nt, k, i))
 //@ pure slowPtrAt(nt *NodeTable, k int, i int) ref = dec(nt.slowHT[hashOf(k)][i])
 
 // Representation invariant (the parts the functional contracts need).
-//@ pure wfConf(nt *NodeTable) bool = forall h uint32 :: has(nt.slowHT, h) <==> (has(nt.fastHT, h) && conf(nt.fastHT[h]))
-//@ pure wfNonEmpty(nt *NodeTable) bool = forall h uint32 :: has(nt.slowHT, h) ==> len(nt.slowHT[h]) >= 1 && ptr(nt.slowHT[h]) > 0
-//@ pure wfBelowBrk(nt *NodeTable) bool = forall h uint32 :: has(nt.slowHT, h) ==> ptr(nt.slowHT[h]) + 8 * cap(nt.slowHT[h]) <= brk()
-//@ pure wfDisjoint(nt *NodeTable) bool = forall h1, h2 uint32 :: h1 != h2 && has(nt.slowHT, h1) && has(nt.slowHT, h2) ==>
+//@ pure wfConf(nt *NodeTable) bool = forall h uint32 {has(nt.slowHT, h)} {has(nt.fastHT, h)} :: has(nt.slowHT, h) <==> (has(nt.fastHT, h) && conf(nt.fastHT[h]))
+//@ pure wfNonEmpty(nt *NodeTable) bool = forall h uint32 {has(nt.slowHT, h)} :: has(nt.slowHT, h) ==> len(nt.slowHT[h]) >= 1 && ptr(nt.slowHT[h]) > 0
+//@ pure wfBelowBrk(nt *NodeTable) bool = forall h uint32 {has(nt.slowHT, h)} :: has(nt.slowHT, h) ==> ptr(nt.slowHT[h]) + 8 * cap(nt.slowHT[h]) <= brk()
+//@ pure wfDisjoint(nt *NodeTable) bool = forall h1, h2 uint32 {has(nt.slowHT, h1), has(nt.slowHT, h2)} :: h1 != h2 && has(nt.slowHT, h1) && has(nt.slowHT, h2) ==>
 //@     (ptr(nt.slowHT[h1]) + 8 * cap(nt.slowHT[h1]) <= ptr(nt.slowHT[h2]) || ptr(nt.slowHT[h2]) + 8 * cap(nt.slowHT[h2]) <= ptr(nt.slowHT[h1]))
-//@ pure wfDistinct(nt *NodeTable) bool = forall h uint32, i, j int :: has(nt.slowHT, h) && 0 <= i && i < len(nt.slowHT[h]) ==>
+//@ pure wfDistinct(nt *NodeTable) bool = forall h uint32, i, j int {nt.slowHT[h][i], nt.slowHT[h][j]} :: has(nt.slowHT, h) && 0 <= i && i < len(nt.slowHT[h]) ==>
 //@     keyOf(dec(nt.slowHT[h][i])) != keyOf(dec(nt.fastHT[h])) && (0 <= j && j < i ==> keyOf(dec(nt.slowHT[h][j])) != keyOf(dec(nt.slowHT[h][i])))
 //@ pure wf(nt *NodeTable) bool = nt != nil && nt.fastHT != nil && nt.slowHT != nil && nt.fastHT != nt.slowHT && wfConf(nt) && wfNonEmpty(nt) && wfBelowBrk(nt) && wfDisjoint(nt) && wfDistinct(nt)
 
@@ -114,8 +114,8 @@ package nodetable
 //@ ensures[old-slow] !old(inFast(nt, keyId(key))) && old(present(nt, keyId(key))) ==> old(exists i int :: inSlowAt(nt, keyId(key), i) && slowPtrAt(nt, keyId(key), i) == oldPtr)
 //@ ensures[old-absent] !old(present(nt, keyId(key))) ==> oldPtr == nil
 //@ ensures[new] (inFast(nt, keyId(key)) && dec(nt.fastHT[hashOf(keyId(key))]) == nptr) || (exists i int :: inSlowAt(nt, keyId(key), i) && slowPtrAt(nt, keyId(key), i) == nptr)
-//@ ensures[others-fast] forall k2 int :: k2 != keyId(key) ==> (inFast(nt, k2) <==> old(inFast(nt, k2))) && (inFast(nt, k2) ==> dec(nt.fastHT[hashOf(k2)]) == old(dec(nt.fastHT[hashOf(k2)])))
-//@ ensures[others-slow] forall k2 int, i int :: k2 != keyId(key) ==> (inSlowAt(nt, k2, i) <==> old(inSlowAt(nt, k2, i))) && (inSlowAt(nt, k2, i) ==> slowPtrAt(nt, k2, i) == old(slowPtrAt(nt, k2, i)))
+//@ ensures[others-fast] forall k2 int {hashOf(k2)} :: k2 != keyId(key) ==> (inFast(nt, k2) <==> old(inFast(nt, k2))) && (inFast(nt, k2) ==> dec(nt.fastHT[hashOf(k2)]) == old(dec(nt.fastHT[hashOf(k2)])))
+//@ ensures[others-slow] forall k2 int, i int {nt.slowHT[hashOf(k2)][i]} :: k2 != keyId(key) ==> (inSlowAt(nt, k2, i) <==> old(inSlowAt(nt, k2, i))) && (inSlowAt(nt, k2, i) ==> slowPtrAt(nt, k2, i) == old(slowPtrAt(nt, k2, i)))
 //@ ensures[count] nt.fastHTCount + nt.slowHTCount == old(nt.fastHTCount + nt.slowHTCount) + ite(updated, 0, 1)
 //@ ensures[wf-conf] wfConf(nt)
 //@ ensures[wf-nonempty] wfNonEmpty(nt)
@@ -129,7 +129,7 @@ package nodetable
 //@ use emptyResult-zero hashOf-range
 //@ requires wf(nt)
 //@ requires nt.fastHTCount < 4294967296 && nt.slowHTCount < 4294967296 && nt.conflicts < 4294967296
-//@ requires[counts] (forall h uint32 :: has(nt.fastHT, h) ==> nt.fastHTCount >= 1) && (forall h uint32 :: has(nt.slowHT, h) ==> nt.slowHTCount >= 1 && nt.conflicts >= 1)
+//@ requires[counts] (forall h uint32 {has(nt.fastHT, h)} :: has(nt.fastHT, h) ==> nt.fastHTCount >= 1) && (forall h uint32 {has(nt.slowHT, h)} :: has(nt.slowHT, h) ==> nt.slowHTCount >= 1 && nt.conflicts >= 1)
 //@ modifies nt.res.status, nt.res.hash, nt.res.hasConflict, nt.res.fastHTHasEntry, nt.res.fastHTValue, nt.res.slowHTValues, nt.res.slowHTPos
 //@ modifies mapof(nt.fastHT), mapof(nt.slowHT), mem(uint64), nt.fastHTCount, nt.slowHTCount, nt.conflicts, heap($alive), heap($brk)
 //@ ensures[success] success <==> old(present(nt, keyId(key)))
@@ -137,8 +137,8 @@ package nodetable
 //@ ensures[ptr-slow] !old(inFast(nt, keyId(key))) && old(present(nt, keyId(key))) ==> old(exists i int :: inSlowAt(nt, keyId(key), i) && slowPtrAt(nt, keyId(key), i) == nptr)
 //@ ensures[ptr-absent] !old(present(nt, keyId(key))) ==> nptr == nil
 //@ ensures[removed] !present(nt, keyId(key))
-//@ ensures[others] forall k2 int :: k2 != keyId(key) ==> (present(nt, k2) <==> old(present(nt, k2)))
-//@ ensures[others-fast-stay] forall k2 int :: k2 != keyId(key) && old(inFast(nt, k2)) ==> inFast(nt, k2) && dec(nt.fastHT[hashOf(k2)]) == old(dec(nt.fastHT[hashOf(k2)]))
+//@ ensures[others] forall k2 int {hashOf(k2)} :: k2 != keyId(key) ==> (present(nt, k2) <==> old(present(nt, k2)))
+//@ ensures[others-fast-stay] forall k2 int {hashOf(k2)} :: k2 != keyId(key) && old(inFast(nt, k2)) ==> inFast(nt, k2) && dec(nt.fastHT[hashOf(k2)]) == old(dec(nt.fastHT[hashOf(k2)]))
 //@ ensures[count] nt.fastHTCount + nt.slowHTCount == old(nt.fastHTCount + nt.slowHTCount) - ite(success, 1, 0)
 //@ ensures[wf-conf] wfConf(nt)
 //@ ensures[wf-nonempty] wfNonEmpty(nt)
